@@ -34,6 +34,7 @@ class C10(E1Check):
         atoms = A.atoms(lvl)
         self.names = ["m", "n", "zz"] + ([""] if tier != "quick" else [])
         self.read_vocab = atoms + [("not", a) for a in atoms[::4]]
+        self.ivocab = [a for a in atoms if a[0] in ("cmp", "exists")][::3]
         sels = [
             ("cmp", "tags", ("a",), "==", A.x),
             ("cmp", "time", (), "<=", A.t[1]),
@@ -79,7 +80,8 @@ class C10(E1Check):
 
     def op_list(self, cfg):
         base = std_ops(self.alpha, cfg, self.tier)
-        base += [("handle", "m"), ("handle", "n"), ("insert", "P0", None, False, "h:n"), ("h_remove_all", "m")]
+        base += [("handle", "m"), ("handle", "n"), ("insert", "P0", None, False, "h:n"), ("h_remove_all", "m"),
+                 ("getter", "get_field_keys", "n"), ("getter", "get_timestamps", "m")]
         have = set(base)
         self.probe_set = {p for p in self.probe_list if p not in have}
         return base + [p for p in self.probe_list if p in self.probe_set]
@@ -117,6 +119,8 @@ class C10(E1Check):
         elif wb.db.index.valid != T.post_valid:
             out.append(viol("handle-equals-db-form", sig + "|index-validity-differs", observed=T.post_valid, expected=wb.db.index.valid))
         wb.close()
+        if not out and T.post_valid:
+            out += [dict(v, kind="transition") for v in observers.index_equiv("C10", T.world.db, T.post, self.ivocab, counters, tag=f"|after-h.{op[0]}")]
         # other measurements untouched
         others_pre = [rp for rp in T.pre if rp[1] != name]
         if op[0] in ("remove", "h_remove_all", "update", "update_all"):
